@@ -6,8 +6,8 @@
    statements that are FALSE of the code as it is (witness replayed on the implementation by the
    check); the `_partial`/flat theorems next to them carry the narrowest boolean hypothesis.
    Nesting depth of tables inside cells is bounded by 1 in the source type (`citem`). *)
-From Coq Require Import ZArith List Bool.
-From S2T Require Import Lib.PyStr C13.Model C13.ProofsHtml C13.ProofsSheets C13.ProofsOds C13.ProofsTree C13.ProofsRtf.
+From Coq Require Import ZArith List Bool Permutation.
+From S2T Require Import Lib.PyStr C13.Model C13.ProofsHtml C13.ProofsSheets C13.ProofsOds C13.ProofsTree C13.ProofsRtf C13.ProofsOrder.
 Import ListNotations.
 Notation length := List.length.
 Notation concat := List.concat.
@@ -300,3 +300,23 @@ Theorem C13_rtf_adjacent_tables_merged_refuted : exists d : list rblock,
   rtf_doc_plain ws_ascii d = true /\ rtf_tables ws_ascii wd_ascii (rtf_r_doc d) <> rtf_doc_tables d.
 Proof. exact rtf_adjacent_tables_merged_refuted. Qed.
 Print Assumptions C13_rtf_adjacent_tables_merged_refuted.
+
+(* ---------------------------------------------------------------- order of the tables of a deck (ODP, PPTX)
+   frames are sorted by position with a stable sort; positions are order-preserving ranks *)
+(* none lost, none invented, whatever the positions are (equal, missing, unparseable, descending) *)
+Theorem C13_deck_tables_perm : forall slides : list (list frame),
+  Permutation (deck_tables slides) (deck_source_tables slides).
+Proof. exact deck_tables_perm. Qed.
+Print Assumptions C13_deck_tables_perm.
+
+(* source order whenever positions do not decrease along the document *)
+Theorem C13_deck_tables_source_order : forall slides : list (list frame),
+  forallb (fun sl => keys_sorted (map fst sl)) slides = true -> deck_tables slides = deck_source_tables slides.
+Proof. exact deck_tables_source_order. Qed.
+Print Assumptions C13_deck_tables_source_order.
+
+(* in particular for frames stacked at one position / frames without a usable position *)
+Theorem C13_slide_tables_same_position : forall (c : poskey) (ts : list (option (list (list str)))),
+  slide_tables (map (fun t => (c, t)) ts) = flat_map frame_tables (map (fun t => (c, t)) ts).
+Proof. exact slide_tables_same_position. Qed.
+Print Assumptions C13_slide_tables_same_position.
